@@ -37,29 +37,7 @@ def check(ctx):
     ctx.ob("R18.3", "Polygon.copy copies the vertex array", ok, detail=[norm(p) for p in pc], where=fc.fq, construct="Polygon.copy",
            loc=loc(fc, fc.node), message="Polygon.copy shares the vertex array", consequence="mutating the copy's vertices changes the original")
     fd = D.methods["copy"]
-    dc = [n for n in ast.walk(fd.node) if isinstance(n, ast.Call) and norm(n.func) == "Device"]
-    kw = {k.arg: expanded_text(fd.node, k.value) for k in dc[0].keywords} if len(dc) == 1 else {}
-
-    def is_copy_comp(txt, coll):
-        try:
-            e = ast.parse(txt, mode="eval").body
-        except SyntaxError:
-            return False
-        return isinstance(e, ast.ListComp) and len(e.generators) == 1 and norm(e.generators[0].iter) == coll and \
-            isinstance(e.elt, ast.Call) and isinstance(e.elt.func, ast.Attribute) and e.elt.func.attr == "copy" and \
-            norm(e.elt.func.value) == norm(e.generators[0].target)
-    pp_defs = [norm(v) for _, v in assignments(fd.node).get(norm(dc[0].keywords[[k.arg for k in dc[0].keywords].index("probe_points")].value) if dc and "probe_points" in [k.arg for k in dc[0].keywords] else "?", []) if v is not None]
-    missing = []
-    if kw.get("layer") != "self.layer.copy()":
-        missing.append("layer")
-    if kw.get("film") != "self.film.copy()":
-        missing.append("film")
-    if not is_copy_comp(kw.get("holes", ""), "self.holes"):
-        missing.append("holes")
-    if not is_copy_comp(kw.get("terminals", ""), "self.terminals"):
-        missing.append("terminals")
-    if sorted(pp_defs) != ["None", "self.probe_points.copy()"] and kw.get("probe_points") != "self.probe_points.copy()":
-        missing.append("probe_points")
+    missing, kw = device_copy_shares(D, fd)
     ctx.ob("R18.3", "Device.copy copies layer, film, every hole, every terminal and the probe points", not missing, detail={"kwargs": kw, "shared": missing},
            where=fd.fq, construct="Device.copy", loc=loc(fd, fd.node), message=f"Device.copy shares {missing}",
            consequence="Device.scale/rotate/translate(inplace=False) move the original's polygons")
@@ -144,7 +122,8 @@ def set_operations(ctx, P):
         e = dict(module_constants(f.module.tree))
         e.update({p_: SO(p_) for p_ in params})
         e.update(env)
-        m = Machine(e, attrs or (lambda t: NotImplemented), call or (lambda *a: NotImplemented), fuel=16, undecided=undecided)
+        from ..smallstep import follow_private_methods
+        m = Machine(e, attrs or (lambda t: NotImplemented), follow_private_methods(P, call), fuel=16, undecided=undecided)
         kind, val = m.run_function(f.node)
         return kind, val, m
 
@@ -186,8 +165,21 @@ def set_operations(ctx, P):
                 and render(kw.get("mesh")) == "self.mesh" and render(kw.get("name")) in ("name", "(name or self.name)") \
                 and set(kw) == {"points", "mesh", "name"} and fold(pts.parts[4], operands[:-1])
         o = [SO("o0"), SO("o1")]
-        ok2 = kind2 == "return" and (fold(val2, o) or (is_call(val2, m_) and val2.parts[2] == o[1:] and val2.parts[3].get("name") == SO("name")
-                                                       and set(val2.parts[3]) == {"name"} and fold(val2.parts[4], o[:1])))
+
+        def recursion(v):
+            """<new polygon>.<m>(*rest, name=name), or the same through a private method that is handed the operation and the rest"""
+            if not (isinstance(v, SO) and v.parts and v.parts[0] == "call"):
+                return False
+            args_, kw_, recv_ = list(v.parts[2]), dict(v.parts[3]), v.parts[4]
+            short_ = v.parts[1].split(".")[-1]
+            if short_ == m_:
+                return args_ == o[1:] and kw_.get("name") == SO("name") and set(kw_) == {"name"} and fold(recv_, o[:1])
+            if short_.startswith("_") and short_ in P.methods:
+                allv = args_ + list(kw_.values())
+                rest_ok = any(isinstance(x, (tuple, list)) and list(x) == o[1:] for x in allv)
+                return m_ in allv and rest_ok and SO("name") in allv and fold(recv_, o[:1])
+            return False
+        ok2 = kind2 == "return" and (fold(val2, o) or recursion(val2))
         ctx.ob("R18.1", f"Polygon.{m_}: _join_via(first, '{m_}'), recursion on .{m_}(*rest), keeps name/mesh, no operands -> copy",
                ok0 and ok2, detail=det, where=f.fq, construct=m_, loc=loc(f, f.node),
                message=f"Polygon.{m_} evaluates to {det}",
@@ -395,3 +387,60 @@ def setter_chain(fs):
         top = v.parts[1].split(".")[-1] if isinstance(v, SO) and v.parts and v.parts[0] == "call" else None
         ok = ok and top == "close_curve" and any(find(o, "Polygon") for o in find(v, "orient"))
     return ok, steps
+
+
+def device_copy_shares(D, fd):
+    """Device.copy followed (pvs/smallstep.py) with and without probe points: every part of the new Device must be the result of a
+    `.copy()` call on the corresponding part of self (element by element for the lists), however the arguments are assembled."""
+    from ..smallstep import Machine, Opaque as SO, follow_private_methods, module_constants, render
+
+    class M(Machine):
+        def iterate(self, v, node):
+            if isinstance(v, SO):
+                return [SO(f"{v.text}[{i}]", ("index", v, i)) for i in range(2)]
+            return super().iterate(v, node)
+
+    def copied_from(v, src_text):
+        """v is <src>.copy() (possibly wrapped in tuple()/list())"""
+        if isinstance(v, SO) and v.parts and v.parts[0] == "call":
+            short = v.parts[1].split(".")[-1]
+            if short == "copy" and isinstance(v.parts[4], SO) and v.parts[4].text == src_text and not v.parts[2]:
+                return True
+            if short in ("tuple", "list") and len(v.parts[2]) == 1:
+                return copied_from(v.parts[2][0], src_text)
+        return False
+
+    def elements_copied(v, coll):
+        if isinstance(v, SO) and v.parts and v.parts[0] == "call" and v.parts[1] in ("tuple", "list") and len(v.parts[2]) == 1:
+            v = v.parts[2][0]
+        return isinstance(v, (list, tuple)) and len(v) == 2 and all(copied_from(x, f"self.{coll}[{i}]") for i, x in enumerate(v))
+    missing = set()
+    shown = {}
+    for probes in (True, False):
+        def attrs(text, probes=probes):
+            if text == "self.probe_points":
+                return SO("self.probe_points") if probes else None
+            if text == "self.mesh":
+                return SO("self.mesh")
+            return NotImplemented
+        env = dict(module_constants(fd.module.tree))
+        env.update({"self": SO("self"), "with_mesh": True})
+        kind, val = M(env, attrs, follow_private_methods(D), fuel=16, undecided=lambda t: None).run_function(fd.node)
+        if kind != "return" or not (isinstance(val, SO) and val.parts and val.parts[0] == "call" and val.parts[1] == "Device"):
+            raise AnalysisError(f"Device.copy does not return Device(...) in the model ({kind} {render(val)[:80]})")
+        params = [a.arg for a in D.methods["__init__"].node.args.args[1:] + D.methods["__init__"].node.args.kwonlyargs]
+        passed = dict(zip(params, val.parts[2]))
+        passed.update(val.parts[3])
+        shown = {k: render(v)[:60] for k, v in passed.items()}
+        for k in ("layer", "film"):
+            if not copied_from(passed.get(k), f"self.{k}"):
+                missing.add(k)
+        for k in ("holes", "terminals"):
+            if not elements_copied(passed.get(k), k):
+                missing.add(k)
+        pp = passed.get("probe_points")
+        if probes and not copied_from(pp, "self.probe_points"):
+            missing.add("probe_points")
+        if not probes and pp is not None:
+            missing.add("probe_points")
+    return sorted(missing, key=["layer", "film", "holes", "terminals", "probe_points"].index), shown
